@@ -826,7 +826,7 @@ Qed.
 Lemma cbpres_test_k sc k p : cbpres (test_k (env_set sc) k p).
 Proof.
   intros w. unfold test_k, cbk. cbn [env_set eqK].
-  pose proof (eq_answer_eq_only sc (cb w) (N.eqb (kcls (fst p)) (kcls k))) as H.
+  pose proof (eq_answer_eq_only sc (cb w) (cls_truth sc (kcls (fst p)) (kcls k))) as H.
   destruct (eq_answer sc (cb w) _) as [an s]. cbn [snd] in H. destruct an; cbn [cb]; exact H.
 Qed.
 Lemma cbpres_p_ref i : cbpres (@p_ref key unit cstate i).
